@@ -183,8 +183,13 @@ PERIOD = st.one_of(st.sampled_from([1.0, 5.0, 15.0, 60.0]), st.floats(1, 120))
 def battery_params(draw):
     cap = draw(st.one_of(st.sampled_from([8.0, 24.0, 60.0, 100.0]), st.floats(0.5, 200)))
     tsoc = draw(st.one_of(st.sampled_from([0.0, 0.8, 0.999, 0.5]), st.floats(0, 0.999)))
-    where = draw(st.sampled_from(["zero", "low", "below_t", "at_t", "above_t", "full", "any"]))
-    if where == "zero":
+    where = draw(st.sampled_from(["zero", "low", "below_t", "at_t", "above_t", "full", "near_full", "any"]))
+    near = None
+    if where == "near_full":
+        # a hair below capacity: head-room of the order of the 1e-3 kWh "fully charged" tolerance
+        near = draw(st.sampled_from([1e-4, 5e-4, 9.9e-4, 1.1e-3, 1e-6, 1e-2]))
+        frac = 1.0
+    elif where == "zero":
         frac = 0.0
     elif where == "low":
         frac = draw(st.floats(0, 0.3))
@@ -199,6 +204,8 @@ def battery_params(draw):
     else:
         frac = draw(st.floats(0, 1))
     init = min(cap, max(0.0, frac * cap))
+    if near is not None:
+        init = max(0.0, cap - near)
     maxp = draw(st.one_of(st.sampled_from([3.3, 6.6, 7.0, 50.0]), st.floats(0.2, 150)))
     return cap, init, maxp, tsoc
 
